@@ -177,8 +177,8 @@ def mutate_tokens(rng, data, fault):
             try:
                 v = int(top.get('version'))
                 top.set('version', str(max(0, v + rng.choice([1, 1, 0, -1]))))
-            except ValueError:
-                pass
+            except (ValueError, TypeError):
+                pass     # the fault removed or garbled the version itself
         if rng.random() < 0.5:
             o.addnext(c)
         else:
